@@ -133,6 +133,10 @@ func firstDiff(a, b string) (field, detail string) {
 
 func oracle(c Case) *ev.Verdict {
 	base := render(c, nil)
+	if i := strings.Index(base, `"again":"`); c.Kind == "project" && i >= 0 {
+		// (sut.ObserveBuilt asks every question a second time on the same object)
+		return ev.V("project:same-object:second-answer-differs", "the same object gives another answer when asked again: %.400s\ninput: %s", base[i:], describe(c))
+	}
 	for i := 1; i < repeats; i++ {
 		if r := render(c, nil); r != base {
 			field, d := firstDiff(base, r)
